@@ -175,8 +175,12 @@ def harness(tier, seed):
         grid += [(a, b, c, d, e, f) for a in (1, 2, 3) for b in (a, 3) for c in (1, 2, 3) for d in (c, 3)
                  for e in (0, 1, 3, 6) for f in (e, 6) if (a, b, c, d, e, f) not in grid]
     for (hmin, hmax, amin, amax, smin, smax) in grid:
-        bad, kind, nfeas, nover, over_code, max_err = sweep(pats, days, hmin, hmax, amin, amax, smin, smax, rounds,
-                                                            t1, t2, ub, count_errors)
+        try:
+            bad, kind, nfeas, nover, over_code, max_err = sweep(pats, days, hmin, hmax, amin, amax, smin, smax, rounds,
+                                                                t1, t2, ub, count_errors)
+        except Exception as ex:      # NUMBA_BOUNDSCHECK=1: an out-of-range access of the kernel raises
+            viol.append(("exhaustive4/kernel-raises", {"n": 4, "home_streak": [hmin, hmax]}, repr(ex)))
+            continue
         evals += 12 ** days
         distinct += 12 ** days
         setting = {"home_streak": [hmin, hmax], "away_streak": [amin, amax], "separation": [smin, smax]}
@@ -212,8 +216,12 @@ def harness(tier, seed):
             y[rng.randrange(days), rng.randrange(n)] = rng.choice([0, n, -n, 1])
         t1 = np.full(n * (n - 1) // 2, 99, np.int8)
         t2 = np.full((n, n), 99, np.int8)
-        e = int(count_errors(y, hmin, hmax, amin, amax, smin, smax, t1, t2))
-        e2 = int(count_errors(y, hmin, hmax, amin, amax, smin, smax, t1, t2))      # scratch contents must not matter
+        try:
+            e = int(count_errors(y, hmin, hmax, amin, amax, smin, smax, t1, t2))
+            e2 = int(count_errors(y, hmin, hmax, amin, amax, smin, smax, t1, t2))  # scratch contents must not matter
+        except Exception as ex:
+            viol.append(("random/kernel-raises", {"n": n, "rounds": rounds, "plan": y.tolist()}, repr(ex)))
+            continue
         feas, cnt, cons = spec_eval(y, hmin, hmax, amin, amax, smin, smax, rounds)
         evals += 1
         info = {"n": n, "rounds": rounds, "plan": y.tolist(), "home_streak": [hmin, hmax], "away_streak": [amin, amax],
